@@ -1504,7 +1504,9 @@ class Gen:
 				iv = self.fresh('i')
 				sub.vars[iv] = Var(iv, 'int', 0, max(v.maxlen, 1))
 				self.count('for:enumerate')
-				body.append(S('for_enum', (iv, xv), self.var_e(v), self.loop_body(sub, depth)))
+				# no `continue` directly in the body of an enumerate loop: it skips the emitted `i++` (known finding enumerate:continue-skips-index,
+				# exercised by its own probe programs so that it cannot hide another failure of the same program)
+				body.append(S('for_enum', (iv, xv), self.var_e(v), self.loop_body(sub, depth, allow_continue=False)))
 		elif (objs := [v for v in env.vars.values() if v.cls is not None and isinstance(v.cls, Cls) and any(getattr(m, 'view', None) for m in self.all_methods(v.cls))]) and x < 0.85:
 			# a user object with methods named like the dict views: an ordinary loop over the returned list (order matters, any body)
 			v = r.choice(objs)
@@ -1569,13 +1571,13 @@ class Gen:
 		f.frozen = True
 		return f
 
-	def loop_body(self, env: Env, depth: int) -> list[S]:
+	def loop_body(self, env: Env, depth: int, allow_continue: bool = True) -> list[S]:
 		r = self.r
 		body: list[S] = []
 		for _ in range(r.randint(1, 3)):
 			x = r.random()
 			if x < 0.15 and depth > 0:
-				kind = r.choice(['break', 'continue'])
+				kind = r.choice(['break', 'continue']) if allow_continue else 'break'
 				self.count(kind)
 				body.append(S('if', [(self.gen_bool(env, self.size), [S(kind)])], None))
 			else:
@@ -2147,7 +2149,8 @@ IDIOM_WHAT = {
 	'idiom:list-fill-field': 'annotated declarations whose value is a list fill (`xs: list[int] = [v] * n`, constructor field `self.xs: list[int] = [v] * n`) '
 		'are n copies of v, not the two-element initializer {n, v}',
 	'idiom:container-methods': 'list copy / pop / clear / list(..) / del, dict copy / pop / clear / del / list(d.keys()) / list(d.values()), list and dict '
-		'comprehensions over dict views and with a condition, tuple indexing, nested lists, a call of a None function: independent copies, '
+		'comprehensions over dict views and with a condition, statement loops over keys() / values() / items() / enumerate / a list, tuple indexing, nested lists, '
+		'a call of a None function: independent copies, '
 		'the popped / remaining elements and the aggregated values are Python\'s',
 	'idiom:inferred-operator-type': 'the type inferred for an operator expression with operands of different types (int op float, float op int, flat chains of both) '
 		'is the type of Python\'s value whichever operand stands on the left: an un-annotated local, a list literal element, a comprehension projection '
@@ -2215,6 +2218,9 @@ def _container_methods_program(rng: random.Random) -> dict[str, Any]:
 	fn('d_clear_del', f'\td = {d}\n\tdel d[{rng.choice([k1, k2, k3])}]\n\ta = len(d)\n\td.clear()\n\td[{c[0]}] = n\n\treturn [a, len(d), d[{c[0]}]]\n')
 	fn('d_views', f'\td = {d}\n\tks = list(d.keys())\n\tvs = list(d.values())\n\tt = 0\n\tfor k in ks:\n\t\tt += k\n\tu = 0\n\tfor x in vs:\n\t\tu += x * {c[1]}\n\treturn [len(ks), len(vs), t, u]\n')
 	fn('d_comp', f'\td = {d}\n\tw = {{k: x + k * {c[2]} for k, x in d.items()}}\n\ta = [k * {c[3]} for k in d.keys()]\n\tb = [x - {c[4]} for x in d.values()]\n\tt = 0\n\tfor y in a:\n\t\tt += y\n\tfor y in b:\n\t\tt += y * 3\n\treturn [w[{k1}], w[{k2}], w[{k3}], len(w), t]\n')
+	# statement loops over the dict views / enumerate / a list, keys and values weighted differently (a swapped pair is observable)
+	fn('loops', f'\td = {d}\n\txs = {xs}\n\ta = 0\n\tfor k in d.keys():\n\t\ta += k * {c[0]}\n\tb = 0\n\tfor x in d.values():\n\t\tb += x * {c[1]} + 1\n\te = 0\n'
+		f'\tfor k, x in d.items():\n\t\te += k * 100 + x\n\tg = 0\n\tfor i, x in enumerate(xs):\n\t\tg += (i + 1) * x\n\th = 0\n\tfor x in xs:\n\t\th = h * 3 + (x & 7)\n\treturn [a, b, e, g, h]\n')
 	parts.append(f'def nothing(n: int) -> None:\n\tpass\n')
 	fn('misc', f'\tt = (n, v + {c[0]}, n * {c[1]})\n\tnothing(n)\n\treturn [t[0], t[1], t[2]]\n')
 	args = [[rng.randint(0, 9), rng.randint(0, 9)] for _ in range(4)] + [[rng.randint(-20, 40), rng.randint(-20, 40)]]
